@@ -192,6 +192,23 @@ CLAIMED = {
              "bare rather than as a 1-tuple.",
         technique="TLA+ spec Codec; TLC-enumerated requests replayed on real code; TLC trace validation",
         design_ref="5/C13"),
+
+    "C12": dict(
+        category="model_checking",
+        text="SendLoop.tla (one action per suspension or mutation point of roundtrip / sendloop / process_packet / "
+             "roundtrip_packet / datagram_received, plus bus return / delay / duplicate / loss) is model-checked "
+             "exhaustively for 2-3 requests (4 bounded) with sizes {small, half frame, frame-filling, too big}, "
+             "cancellations and per-datagram working counters 0/1: each request on the wire at most once and in "
+             "submission order, completing at most once with its own bytes or an error, never through another "
+             "request, and a request that can never fit fails instead of stalling. Hundreds (thorough: "
+             "thousands) of workloads run on the real EtherCat object over a virtual-time loop and simulated "
+             "bus; TLC validates every recorded run, the send loop's internal steps being silent actions.",
+        note="Orderings are those reachable through asyncio's FIFO ready queue with varied start times, delays and "
+             "cancellation points; only FPRD datagrams; at most 22 requests per run; frame-index collisions "
+             "(random 30-bit index) are not explored. The spec is permissive where the property is silent "
+             "(batching, skipping a request cancelled before sending).",
+        technique="TLA+ spec SendLoop + TLC exhaustive model check; TLC batched trace validation of real-code runs",
+        design_ref="5/C12"),
 }
 NOT_YET = "not yet built in this round (planned in DESIGN.md section 5)"
 NOT_APPLICABLE = {}
